@@ -2905,12 +2905,15 @@ func treasureToKeyValuePair(treasureInterface treasure.Treasure, t *hydrapb.Trea
 
 }
 
-// isValidTimestamp checks if the timestamp is valid
+// isValidTimestamp checks if the timestamp is set: non-nil and different from the
+// zero timestamp (1970-01-01T00:00:00Z), which means "not set". Instants before 1970
+// have negative Seconds and must not be dropped (with the previous "> 0" test a
+// pre-1970 value was kept only when its Nanos part happened to be non-zero).
 func isValidTimestamp(ts *timestamppb.Timestamp) bool {
 	if ts == nil {
 		return false
 	}
-	return ts.GetSeconds() > 0 || ts.GetNanos() > 0
+	return ts.GetSeconds() != 0 || ts.GetNanos() != 0
 }
 
 // convertTreasureStatusToPbStatus converts the treasure status from the hydra to the protobuf status
